@@ -1366,6 +1366,9 @@ def _decode_headers(headers, encoding):
         assert isinstance(header, HeaderTuple)
 
         name, value = header
-        name = name.decode(encoding)
-        value = value.decode(encoding)
+        try:
+            name = name.decode(encoding)
+            value = value.decode(encoding)
+        except UnicodeDecodeError as e:
+            raise ProtocolError("Error decoding header: %s" % e)
         yield header.__class__(name, value)
